@@ -19,7 +19,7 @@ func init() {
 		Level: "exploration",
 		Rule: "well-formed generated streams (PAT before PMTs, multi-section and multi-packet units) x every number k of NextPacket/NextData/alternating calls before Rewind (0..total, all k for small streams, " +
 			"strided for larger) x {explicit, auto} x single and repeated rewinds x full and chunked seekable reads; the results after the rewind are compared with a fresh demuxer; " +
-			"plus 1..65 537 rewinds in a row over a held partial unit (stage many-rewinds); distinct = hash of (stream, api, size mode, k); non-trivial = k>0",
+			"plus 1..65 537 rewinds in a row over a held partial unit (stage many-rewinds); a fifth of the rewinds under a context cancelled just before, compared with a Demuxer created with that context; distinct = hash of (stream, api, size mode, k); non-trivial = k>0",
 		Assumptions: []string{"the reader is an in-memory seekable tap; streams satisfy the property's precondition (PAT precedes PMTs)"},
 		Shards:      32,
 		Run:         runC20,
